@@ -351,6 +351,13 @@ func ruleLock9(c *Ctx) {
 		if _, ok := table[p.Name(fn)]; ok {
 			return p.Name(fn)
 		}
+		// the function a listed function hands all its work to (`func Select(…) { return selectQuery(…, false) }`)
+		// is that function's body, whoever else enters it
+		for _, n := range sortedKeys(table) {
+			if lf := p.Func(n); lf != nil && thinDelegate(lf) == fn {
+				return n
+			}
+		}
 		if depth > 3 || len(callers[fn]) == 0 || p.IsControl(fn) {
 			return ""
 		}
